@@ -100,7 +100,13 @@ def opSeg (st : DState) (args : List String) : String :=
           | .inl .err => "500"
           | .inl (.ok nr start frames) =>
             let ident := if aname.startsWith "gen_" then rangesStr frames else "?"
-            s!"200 nr={nr} tfdt={start} n={frames.length} frames={ident}"
+            let out := s!"200 nr={nr} tfdt={start} n={frames.length} frames={ident}"
+            -- the availability test runs on the reference representation: same tie zones as there
+            match a.ref? with
+            | some ref => (match audioLookup a ref r cfg sid now with
+                | .found m => withGoneTie a ref cfg m now out
+                | _ => out)
+            | none => out
         else
         match lookupVideo a r cfg sid now with
         | .found m => withGoneTie a r cfg m now (metaStr r m)
